@@ -108,7 +108,9 @@ func c09UsedFiles(c *harness.Check, cs usedFaultCase) string {
 }
 
 func TestC09_FaultsInUsedFiles(t *testing.T) {
-	faults := []string{"{{ 10 % zero }}", "{{ 1 / zero }}", "{{ zzUnknown }}", "{{ zero.nosuch }}", "@each(x in zero)a@end", "{{ \"s\".zzNoFn() }}", "{{ [1][9].x }}"}
+	faults := []string{"{{ 10 % zero }}", "{{ 1 / zero }}", "{{ zzUnknown }}", "{{ zero.nosuch }}", "@each(x in zero)a@end", "{{ \"s\".zzNoFn() }}", "{{ [1][9].x }}",
+		// the fault in a later element of a literal or a later argument of a call
+		"{{ [1, 10 % zero].len() }}", "{{ \"abc\".truncate(2, zzUnknown) }}", "{{ true.then(\"y\", 1 / zero) }}"}
 	c := harness.New(t, "C09", "faults-in-used-files",
 		fmt.Sprintf("%d run-time faults on line 1..12 of the layout, of a component, of a slot body or of an insert (block form; as the value of a short-form insert, first or second; as a component argument) of a page whose own file has 1..14 lines (so the fault's line may not exist in the page's file), rendered through String and Response with debug on / off and no, a working, a failing or a missing custom error page: both return (no panic), String returns an error and no output, and Response fails exactly when String fails. Exhaustive. Non-trivial: the fault stands in a used file on a line beyond the page's last line. Distinct by construction.", len(faults)))
 	defer c.Finish()
